@@ -5,5 +5,6 @@
 pub mod item;
 pub mod enumerate;
 pub mod float;
+pub mod shape;
 
 pub use item::*;
